@@ -178,7 +178,19 @@ class Lexer:
 
     def t_HEX_LITERAL(self, t: LexToken) -> LexToken:
         r"0x[0-9a-fA-F]+"
-        t.value = int(t.value, 16)
+        value = int(t.value, 16)
+        try:
+            str(value)
+        except ValueError:
+            # Python limits the number of decimal digits of an integer, the
+            # value could not be written into any generated code.
+            raise LexerError(
+                message="Invalid integer, too many digits",
+                filepath=self.current_filepath(),
+                token=t.value[:16] + "...",
+                lineno=t.lineno,
+            )
+        t.value = value
         return t
 
     def t_INT_LITERAL(self, t: LexToken) -> LexToken:
